@@ -270,8 +270,29 @@ def raceH : Handler := fun inp impl => do
   let sets : Array CertSet := (([] : CertSet) :: (arrOf inp "sets").map fun s =>
       match s with | .arr a => certSetOf a.toList | _ => []).toArray
   let reqs := ((strList (arrOf inp "reqs")).map String.toList).toArray
-  let calls : List (List Int) := (arrOf impl "calls").map fun c =>
-    match c with | .arr a => a.toList.map fun x => x.getInt?.toOption.getD (-99) | _ => []
+  -- A set published again with identical content (same names, same chain variants, same positions) cannot be told
+  -- from the one before it by any handshake; whether the store took the second copy is not the property's business.
+  -- Indices are therefore read modulo runs of consecutive identical sets (index of the first set of the run).
+  let setsJ : Array Json := (Json.arr #[] :: (arrOf inp "sets")).toArray
+  let sameSet (a b : Json) : Bool := match a, b with
+    | .arr x, .arr y => x.size == y.size && (x.toList.zip y.toList).all fun (c, d) =>
+        strOf c "cn" == strOf d "cn" && strList (arrOf c "sans") == strList (arrOf d "sans") &&
+        boolOf c "bad" == boolOf d "bad" && intOf c "chain" == intOf d "chain"
+    | _, _ => false
+  let canon : Array Int := Id.run do
+    let mut out : Array Int := #[]
+    for k in [0:setsJ.size] do
+      if k > 0 && sameSet (setsJ[k]?.getD Json.null) (setsJ[k-1]?.getD Json.null) && k > 1 then
+        out := out.push (out[k-1]?.getD (k : Int))
+      else
+        out := out.push (k : Int)
+    return out
+  let canonOf (k : Int) : Int := if k < 0 then k else canon[k.toNat]?.getD k
+  let calls : List (List Int) := ((arrOf impl "calls").map fun c =>
+    match c with | .arr a => a.toList.map fun x => x.getInt?.toOption.getD (-99) | _ => []).map fun rec =>
+      match rec with
+      | [t, r, k, i, e, lo, hi] => [t, r, canonOf k, i, e, canonOf lo, hi]
+      | other => other
   let hss : List (List Int) := (arrOf impl "handshakes").map fun c =>
     match c with | .arr a => a.toList.map fun x => x.getInt?.toOption.getD (-99) | _ => []
   let last := sets[sets.size - 1]?.getD []
